@@ -1,6 +1,9 @@
 //! Correspondence / search harness: runs the REAL implementation on generated cases and writes
 //! the op lines (replayed by the Lean driver) together with the implementation's answers.
+mod asmgen;
+mod astser;
 mod c_alu;
+mod c_asm;
 mod c_board;
 mod c_bus;
 mod c_flow;
@@ -14,7 +17,7 @@ mod sess;
 use out::Out;
 
 fn main() {
-    std::panic::set_hook(Box::new(|_| {}));
+    c_asm::install_panic_hook();
     let args: Vec<String> = std::env::args().collect();
     if args.len() < 5 {
         eprintln!("usage: harness <cmd> <seed> <quick|thorough> <outdir> [extra...]");
@@ -33,6 +36,8 @@ fn main() {
         "c15" => c_flow::run_c15(&mut out, seed, thorough),
         "c10" => c_bus::run(&mut out, seed, thorough),
         "c01" => c_isa::run_c01(&mut out, seed, thorough),
+        "c02" => c_asm::run_c02(&mut out, seed, thorough),
+        "c06" => c_asm::run_c06(&mut out, seed, thorough),
         "c04" => c_isa::run_c04(&mut out, seed, thorough),
         "c05" => c_mach::run_c05(&mut out, seed, thorough),
         "c07" => c_mach::run_c07(&mut out, seed, thorough),
